@@ -197,6 +197,7 @@ func l3TrieCase(c *Ctx, tc *TrieCase) {
 	ns := st.VerifInner()
 	fmt.Fprintf(iw, "B ok\nWF 1\n")
 	iw.WriteString(l3DumpMsgStr(ns))
+	iw.WriteString(l3MarshalLine(st))
 
 	sh := l3ShapeOf(st)
 	if sh.big > 0 {
@@ -249,6 +250,7 @@ func l3TrieCase(c *Ctx, tc *TrieCase) {
 		fmt.Fprintf(cw, "L %s\n", tc.ID)
 		fmt.Fprintf(iw, "C %s+L\nB ok\nWF 1\n", tc.ID)
 		iw.WriteString(l3DumpMsgStr(st2.VerifInner()))
+		iw.WriteString(l3MarshalLine(st2))
 		l3DecoderCase(c, tc.ID+"+L.dec", st2, tc, b.Spec)
 	}
 
@@ -276,6 +278,23 @@ func l3TrieCase(c *Ctx, tc *TrieCase) {
 	if len(c.Or.Samples) < 3 && sh.short > 0 {
 		c.Or.Sample(map[string]interface{}{"case": tc.ID, "kind": tc.Kind, "keys": len(tc.Keys), "nodes": sh.nodes, "short_nodes": sh.short, "short_size": ns.ShortSize, "big_nodes": sh.big})
 	}
+}
+
+// the bytes Marshal() writes: the model must produce them from ITS OWN message
+// (Wire.marshal_gen (EndToEnd.to_wire (Bits.encode_trie (Model.build ...)))) - the
+// composition the end-to-end theorem C05_loaded_trie_answers is about.
+func l3MarshalLine(st *trie.SlimTrie) string {
+	s, p := protect(func() string {
+		b, err := st.Marshal()
+		if err != nil {
+			return "MB ERR " + err.Error() + "\n"
+		}
+		return "MB " + hx(b) + "\n"
+	})
+	if p != "" {
+		return "MB PANIC\n"
+	}
+	return s
 }
 
 func l3DecoderCase(c *Ctx, id string, st *trie.SlimTrie, tc *TrieCase, spec *EncSpec) {
